@@ -406,6 +406,33 @@ def run_shards(mod, shards, nproc=NPROC):
     return total
 
 
+def fresh_eval(fn, *args):
+    """evaluate fn(*args) in a forked child and return its (picklable) result: the child starts from the
+    caller's current module state, so calling this before a history gives 'the same call made first'"""
+    ctx = mp.get_context("fork")
+    parent, child = ctx.Pipe(duplex=False)
+
+    def target():
+        try:
+            child.send(("ok", fn(*args)))
+        except Exception:
+            child.send(("err", traceback.format_exc()))
+        finally:
+            child.close()
+
+    p = ctx.Process(target=target)
+    p.start()
+    child.close()
+    try:
+        kind, val = parent.recv()
+    except EOFError:
+        kind, val = "err", "child died (exit code %s)" % p.exitcode
+    p.join()
+    if kind == "err":
+        raise HarnessError("fresh_eval failed:\n" + val)
+    return val
+
+
 # ---------------------------------------------------------------- findings
 def load_findings(prop):
     path = os.path.join(VERIF, "known_findings.json")
